@@ -19,7 +19,7 @@ static Harness H;
 static const char* ALPHA[] = {"{", "}", "[", "]", ",", ":", "\"", "\\", "/", "u", "0", "1", "9", "-", "+", ".", "e", "E", "a", " ", "\n", "'", "true", "false", "null"};
 static const int NA = 25;
 
-struct Cfg { bool comments = false; bool trailing = false; int depth = 1024; const char* name = "strict"; };
+struct Cfg { bool comments = false; bool trailing = false; int depth = 1024; const char* name = "strict"; bool subst_names_no_inverse = false; };
 
 // is the literal an integer (no frac/exp)?
 static bool is_int_lit(const std::string& s) { for (char c : s) if (c == '.' || c == 'e' || c == 'E') return false; return true; }
@@ -98,6 +98,8 @@ static void judge_text(const std::string& t, const Cfg& c, const char* workload,
     rfc::Val exp; rfc::Parser info(nullptr, 0, ro);
     bool want = rfc::accepts(t, ro, &exp, nullptr, &info);
     json_options o; o.allow_comments(c.comments).allow_trailing_comma(c.trailing).max_nesting_depth(c.depth);
+    // names for NaN/Inf/-Inf registered for serialization only (enable_inverse = false): parsing must leave such strings alone
+    if (c.subst_names_no_inverse) { o.nan_to_str("NaN", false); o.inf_to_str("Inf", false); o.neginf_to_str("NegInf", false); }
     bool got = true; std::error_code ec; ojson v;
     try {
         if (route == 0) v = ojson::parse(t, o);
@@ -208,7 +210,15 @@ int main(int argc, char** argv) {
         Rng r = H.case_rng(c);
         std::string t;
         unsigned k = (unsigned)r.below(10);
-        if (k < 5) { ws(t, r); put_val(t, r, 4); ws(t, r); }
+        bool subst = false;
+        if (r.chance(1, 14)) {      // raw UTF-8 around every boundary of the well-formedness table (Unicode 15, table 3-7), inside a string value or a member name
+            static const std::vector<std::string> seqs = {"\xc2\x80", "\xc1\xbf", "\xc0\x80", "\xdf\xbf", "\xe0\xa0\x80", "\xe0\x9f\xbf", "\xe1\x80\x80", "\xec\xbf\xbf", "\xed\x9f\xbf", "\xed\xa0\x80", "\xed\xbf\xbf", "\xee\x80\x80", "\xef\xbf\xbf",
+                "\xf0\x90\x80\x80", "\xf0\x8f\xbf\xbf", "\xf1\x80\x80\x80", "\xf3\xbf\xbf\xbf", "\xf4\x80\x80\x80", "\xf4\x8f\xbf\xbf", "\xf4\x90\x80\x80", "\xf4\x90\x80\xbf", "\xf5\x80\x80\x80", "\xf8\x88\x80\x80\x80", "\xff", "\xfe", "\x80", "\xbf", "\xe2\x82", "\xf0\x9f\x98", "\xe2\x28\xa1", "\xf0\x28\x8c\xbc"};
+            std::string pre = gen_string(r, 6), post = gen_string(r, 6); std::string body; for (unsigned char ch : pre + r.pick(seqs) + post) { if (ch == '"' || ch == '\\' || ch < 0x20) continue; body.push_back((char)ch); }
+            switch (r.below(3)) { case 0: t = "\"" + body + "\""; break; case 1: t = "[1,\"" + body + "\"]"; break; default: t = "{\"" + body + "\":0}"; }
+        }
+        else if (r.chance(1, 14)) { subst = true; static const char* names[] = {"NaN", "Inf", "NegInf", "-Inf", "nan", "Infinity"}; t = "["; size_t n = 1 + r.below(4); for (size_t i = 0; i < n; ++i) { if (i) t += ","; if (r.coin()) { t += "\""; t += r.pick(names); t += "\""; } else put_val(t, r, 1); } t += "]"; if (r.coin()) t = "{\"NegInf\":" + t + ",\"k\":\"NegInf\"}"; }
+        else if (k < 5) { ws(t, r); put_val(t, r, 4); ws(t, r); }
         else if (k < 8) { ws(t, r); put_val(t, r, 3); ws(t, r); mutate_text(t, r, DICT, 3); }
         else if (!suite.empty()) { t = r.pick(suite); if (r.coin()) mutate_text(t, r, DICT, 2); }
         // BOM / UTF-16/32 auto-detection territory is outside the property (BOM-less UTF-8 text)
@@ -218,6 +228,7 @@ int main(int argc, char** argv) {
         H.note_distinct(hash_str(t));
         Cfg cfg = CFGS[r.below(3)];
         if (r.chance(1, 5)) { cfg.depth = (int)r.below(5); cfg.name = "depth-limit"; }
+        if (subst || r.chance(1, 10)) { cfg.subst_names_no_inverse = true; cfg.name = "substitution-names-without-inverse"; }
         judge_text(t, cfg, "generative", (int)r.below(3));
         if (H.sample_seen < 8 || r.chance(1, 5000)) H.sample(J().str("text", t.substr(0, 200)).done()); else ++H.sample_seen;
     };
